@@ -2,7 +2,7 @@
    [vm_compute] evaluation inside coqc run exactly the same function.
    A case is a list of numbers; the first is the case kind. *)
 From Coq Require Import NArith List Bool.
-From PDB Require Import Gen.Consts Model.IndexPage Model.Pipeline Model.Meta Model.Migrate Model.ValueTable Model.MultiTree Model.BTreeIter Model.BTreeCheck Model.Wal Model.WalCodec Model.StorageCheck Model.Lock Model.Readers Model.TableAlloc Model.IndexSlots Model.BTreeMut.
+From PDB Require Import Gen.Consts Model.IndexPage Model.Pipeline Model.Meta Model.Migrate Model.MigrateDriver Model.ValueTable Model.MultiTree Model.BTreeIter Model.BTreeCheck Model.Wal Model.WalCodec Model.StorageCheck Model.Lock Model.Readers Model.TableAlloc Model.IndexSlots Model.BTreeMut.
 From PDB Require Model.RcTable.
 Import ListNotations.
 Open Scope N_scope.
@@ -185,26 +185,42 @@ Fixpoint take_entries (n : nat) (kidx : N) (l : list N) : list (N * (bool * N * 
       let '(es, r) := take_entries n' (kidx + 1) rest in ((kidx, (negb (p =? 0), v, rc)) :: es, r)
   | _, _ => ([], l)
   end.
-Fixpoint mig_cols (cols : list (N * N)) (c : N) (nkeys : nat) (l : list N) : list N :=
-  match cols with
-  | [] => []
-  | (sflags, dflags) :: rest =>
-      let '(es, r) := take_entries nkeys 0 l in
-      let dcf := {| c_btree := false; c_rc := N.testbit dflags 1; c_preimage := N.testbit dflags 0 |} in
-      let src : scontent := flat_map (fun e : N * (bool * N * N) => let '(k, (p, v, rc)) := e in if (p : bool) then [(k, (v, rc))] else []) es in
-      let M := migrate_col dcf c src in
-      flat_map (fun e : N * (bool * N * N) => match M (fst e) with
-                         | Some (v, n) => [v + 1; if c_rc dcf then n else 0]
+(* the whole call through the driver model (Model/MigrateDriver.v): selection, batches of COMMIT_SIZE, copy or move *)
+Fixpoint take_col_entries (ncols : nat) (nkeys : nat) (l : list N) : list (list (N * (bool * N * N))) :=
+  match ncols with
+  | O => []
+  | S n' => let '(es, r) := take_entries nkeys 0 l in es :: take_col_entries n' nkeys r
+  end.
+Definition entries_src (es : list (N * (bool * N * N))) : scontent :=
+  flat_map (fun e : N * (bool * N * N) => let '(k, (p, v, rc)) := e in if (p : bool) then [(k, (v, rc))] else []) es.
+Fixpoint mig_out (cols : list mcol) (ess : list (list (N * (bool * N * N)))) (c : N) (R : db) : list N :=
+  match cols, ess with
+  | m :: cols', es :: ess' =>
+      flat_map (fun e : N * (bool * N * N) => match R c (fst e) with
+                         | Some (v, n) => [v + 1; if c_rc (dcf m) then n else 0]
                          | None => [0; 0]
                          end) es
-      ++ mig_cols rest (c + 1) nkeys r
+      ++ mig_out cols' ess' (c + 1) R
+  | _, _ => []
+  end.
+Fixpoint take_mcols3 (n : nat) (l : list N) : list mcol * list N :=
+  match n, l with
+  | S n', s :: d :: f :: rest => let '(cs, r) := take_mcols3 n' rest in ({| m_sf := s; m_df := d; m_force := negb (f =? 0) |} :: cs, r)
+  | _, _ => ([], l)
   end.
 Definition run_c20 (l : list N) : list N :=
   match l with
   | ncols :: rest =>
-      let '(cols, r) := take_mcols (N.to_nat ncols) rest in
+      let '(cols, r) := take_mcols3 (N.to_nat ncols) rest in
       match r with
-      | _ :: nkeys :: es => 0 :: mig_cols cols 0 (N.to_nat nkeys) es
+      | ow :: nkeys :: es =>
+          let ess := take_col_entries (length cols) (N.to_nat nkeys) es in
+          let srcs := map entries_src ess in
+          let overwrite := negb (ow =? 0) in
+          match migrate_driver (N.to_nat migration_commit_size) cols (length cols) overwrite srcs (src_db srcs) with
+          | MgOk S' D' => 0 :: mig_out cols ess 0 (if overwrite then S' else D')
+          | MgErr e => [1; e]
+          end
       | _ => err_marker
       end
   | _ => err_marker
